@@ -565,6 +565,12 @@ func (s *Service) BatchPickup(connectionID string, size int) (int, error) {
 	select {
 	case batchResp := <-batchCh:
 		for _, msg := range batchResp.Messages {
+			if msg == nil {
+				logger.Errorf("error handling batch message: null entry in messages~attach")
+
+				continue
+			}
+
 			err := s.handle(msg)
 			if err != nil {
 				logger.Errorf("error handling batch message %s: %w", msg.ID, err)
